@@ -420,8 +420,8 @@ def run(tier, seed):
     return cov, violations
 
 OPEN_ITEMS = [
-    "C06_unify_complete (unbounded, typed axes) -- bounded stop-gaps C06_unify_complete_upto12 / C06_unify_complete_2d_upto6 plus the brute-force coincidence oracle on every implementation unifier",
-    "fuel sufficiency of unify beyond the bound (a divergence of the model would show as verdict 14)",
+    "C06_unify_complete is now proved UNBOUNDED (notes/UNIFY.md): for patterns typed alike in a context (judgement ty/tys of Proofs/Axis_typed.v; good index types: atoms >= 1, every sum type of size >= 2) unify neither warns nor fails otherwise, and returns a most general unifier w.r.t. eval or, on failure, the images are disjoint -- for EVERY fuel with which the model answers (C06_unify_fuel_monotone); C06_unify_total_typed gives a fuel bound computed from the types. Still open: (a) C06_unify_complete_model_fuel_partial carries the side condition `tyfuel <= unify_fuel es fs`, i.e. that the fuel formula of the check function is enough for ALL typed patterns (true on every enumerated universe: C06_typed_universe_upto12; a divergence of the model would show as verdict 14); (b) no general theorem from the Model's context-free has_type to the context judgement ty (they are tied by the sound executable checker ty_b on the enumerated universes); the bounded theorems C06_unify_complete_upto12 / _2d_upto6 and the brute-force coincidence oracle are kept as cross-checks",
+    "F24 (new, documented, outside the generated domain): on index types that contain a sum type of size 1 (e.g. TSum [TAtom 1] as a factor) unify warns and fails on overlapping typed patterns (C06_unify_size1_sum_refuted); the guard `tgood` of the completeness theorem excludes exactly these",
     "binary / commutative / sub refinement with broadcasting, and sizes_agree as a consequence of typing (the theorems carry the boolean guards no_broadcast and sizes_agree)",
     "refinement theorems for getitem, default_to, freshen/clone, post_init: modelled and model-checked through pt_check, proofs open",
     "C06_repr_inv preservation by the constructors: replaced by the run-time monitor and C06_repr_inv_wf / C06_repr_inv_injective",
@@ -465,7 +465,7 @@ def replay(path):
 
 MANIFEST = dict(
     level="proof",
-    text="Coq theorems about a Gallina model of fggs/indices.py's axis algebra (eval bound, stride = affine form, index inverts eval, pattern injectivity = at most one backing element, unify soundness, antiunify generalises both arguments, bounded completeness of unify on typed axes) and of PatternedTensor (to_dense = denote, view operations, unary maps, binary operations through expansion); the model is tied to /repo by running both on generated typed axes/patterns, brute-force specifications judge every implementation output; every listed tensor operation and compositions of up to three are compared with torch on the denoted dense tensors; every PatternedTensor constructed inside the library is checked against the extracted representation invariant.",
-    note="Trusted: Coq kernel + vm_compute, extraction cross-checked against vm_compute, the Python harness (numbering of PhysicalAxis objects, independent evaluator of axes), torch's dense kernels as reference. All findings of this check (F1, F16, F16b, F21, F22, F23) are repaired in /repo; no known finding is left and reverting a repair is reported as a VIOLATION with a concrete failing input. Open: unbounded unify completeness; binary operations with broadcasting; several operations are correspondence-only.",
+    text="Coq theorems about a Gallina model of fggs/indices.py's axis algebra (eval bound, stride = affine form, index inverts eval, pattern injectivity = at most one backing element, unify soundness, unbounded completeness of unify on typed axes (total, silent, most general unifier or disjoint images; the bounded exhaustive theorems are kept as a cross-check), antiunify generalises both arguments) and of PatternedTensor (to_dense = denote, view operations, unary maps, binary operations through expansion); the model is tied to /repo by running both on generated typed axes/patterns, brute-force specifications judge every implementation output; every listed tensor operation and compositions of up to three are compared with torch on the denoted dense tensors; every PatternedTensor constructed inside the library is checked against the extracted representation invariant.",
+    note="Trusted: Coq kernel + vm_compute, extraction cross-checked against vm_compute, the Python harness (numbering of PhysicalAxis objects, independent evaluator of axes), torch's dense kernels as reference. The findings F1, F16, F16b, F21, F22 of this check are repaired in /repo and reverting any of the repairs is reported as a VIOLATION with a concrete failing input; one known finding remains (F23: exp/expm1 compute the default in float64, which overflows float32 tensors for defaults between 88.7 and 709.8). Unify completeness is proved unbounded for typed patterns (notes/UNIFY.md); open there: that the fuel formula of the model suffices for all typed patterns (side condition of C06_unify_complete_model_fuel_partial), and a general link from has_type to the context judgement. Open: binary operations with broadcasting; several operations are correspondence-only.",
     technique="Coq proof (model + theorems) + model/implementation correspondence with brute-force specification oracles + differential testing against torch on denotations + runtime invariant monitor",
     design_ref="DESIGN.md section 6, C06; Appendix A.6; Appendix C")
